@@ -225,14 +225,40 @@ func firstListDiff(a, b []string) string {
 	return "one is a prefix of the other"
 }
 
-// the two streams are permutations of each other and differ only among import path literals
+// the two streams have the same length and differ only inside import declarations, among import
+// names and path literals (go/format's import sorting)
 func importOrderOnly(a, b []tokItem) bool {
 	if len(a) != len(b) {
 		return false
 	}
+	lo, hi := -1, -1
+	for i := 0; i < len(a); i++ {
+		if a[i].Tok != token.IMPORT {
+			continue
+		}
+		if lo < 0 {
+			lo = i
+		}
+		j := i + 1
+		if j < len(a) && a[j].Tok == token.LPAREN {
+			for j < len(a) && a[j].Tok != token.RPAREN {
+				j++
+			}
+		} else {
+			for j < len(a) && a[j].Tok != token.STRING {
+				j++
+			}
+		}
+		if j > hi {
+			hi = j
+		}
+	}
 	for i := range a {
 		if a[i].Tok == b[i].Tok && a[i].Lit == b[i].Lit {
 			continue
+		}
+		if i < lo || i > hi {
+			return false
 		}
 		if a[i].Tok != token.STRING && a[i].Tok != token.IDENT && a[i].Tok != token.PERIOD {
 			return false
@@ -283,7 +309,7 @@ func c03Prop(c *Ctx) {
 
 func init() {
 	props["C03"] = c03Prop
-	corrs["C03"] = func(c *Ctx) { linkCorr(c) }
+	corrs["C03"] = func(c *Ctx) { linkCorr(c); fragCorr(c) }
 	replays["C03"] = func(c *Ctx, raw json.RawMessage) (bool, string) {
 		var in c03Input
 		if err := json.Unmarshal(raw, &in); err != nil || in.Src == "" {
